@@ -201,7 +201,7 @@ CLAIMED = {
        'Model/Server.lean, the model tied to the real Server by C07/C09) into exactly that address and the parameter text; an EHLO extension line '
        'built by Extensions.build_string is parsed back by parse_string into the same name and parameter; base64 decoding inverts encoding for every byte string; the '
        'recipients of the HTTP transport (one base64 header per recipient, joined with commas by the WSGI server, split on \\s*[,;]\\s*) come back as the same '
-       'byte strings in the same order. End to end over SMTP (hop_delivers, session_delivers, session_delivers_any_segmentation): for every clean UTF-8 sender, every non-empty list of such recipients, every message cut into parts at line boundaries and within the SIZE limit, any number of messages on one connection and any segmentation of the bytes, the server\'s handlers see exactly that sender, those recipients in order and the CRLF-terminated message, each command is answered 250 / 354, and the session continues between transactions with exactly the bytes that followed (uses C05\'s reader theorem and C09\'s segmentation theorem). Tied to the code by real hops: StaticSmtpRelay -> '
+       'byte strings in the same order; the reply code the HTTP edge writes into X-Smtp-Reply is the code the relay reads, whatever the reply text and command are (http_reply_code_preserved; header building as wsgiref does it, quoting included). End to end over SMTP (hop_delivers, session_delivers, session_delivers_any_segmentation): for every clean UTF-8 sender, every non-empty list of such recipients, every message cut into parts at line boundaries and within the SIZE limit, any number of messages on one connection and any segmentation of the bytes, the server\'s handlers see exactly that sender, those recipients in order and the CRLF-terminated message, each command is answered 250 / 354, and the session continues between transactions with exactly the bytes that followed (uses C05\'s reader theorem and C09\'s segmentation theorem). Tied to the code by real hops: StaticSmtpRelay -> '
        'socketpair -> SmtpEdge, HttpRelay -> loopback pywsgi -> WsgiEdge, StaticLmtpRelay -> recording LMTP peer, over generated envelopes (null '
        'sender, quoted / escaped / UTF-8 local parts, 1..20 recipients, C20 contents) x server configurations (PIPELINING / 8BITMIME / SMTPUTF8 / SIZE, '
        'EHLO 500 -> HELO, queue verdicts, two messages per connection), wire bytes tapped and compared with the model line by line and as whole transactions (hopBytes, with the parts the relay client handed to Client.send_data), plus unit differentials.',
